@@ -176,18 +176,19 @@ Section Envelope.
            else (x, b)) s.
 
   (* --- key files --- *)
-  Variable kdf : bytes -> bytes -> key.          (* password, salt -> key (scrypt) *)
+  Variable password : Type.                      (* passwords are opaque to the logic *)
+  Variable kdf : password -> bytes -> key.       (* password, salt -> key (scrypt) *)
   Variable mk_ser : key -> bytes.                (* serde_json::to_vec(MasterKey) *)
   Variable mk_de : bytes -> option key.          (* serde_json::from_slice::<MasterKey> *)
 
   Record keyfile := { kf_salt : bytes; kf_data : bytes }.
 
   (* KeyFile::generate *)
-  Definition kf_generate (master : key) (pass salt nonce : bytes) : keyfile :=
+  Definition kf_generate (master : key) (pass : password) (salt nonce : bytes) : keyfile :=
     {| kf_salt := salt; kf_data := encrypt_data (kdf pass salt) nonce (mk_ser master) |}.
 
   (* KeyFile::key_from_password = key_from_data (kdf_key passwd) *)
-  Definition key_from_password (kf : keyfile) (pass : bytes) : res key :=
+  Definition key_from_password (kf : keyfile) (pass : password) : res key :=
     match decrypt_data (kdf pass (kf_salt kf)) (kf_data kf) with
     | Err e => Err e
     | Ok d => match mk_de d with Some k => Ok k | None => Err EJson end
@@ -195,7 +196,7 @@ Section Envelope.
 
   (* find_key_in_backend (hint = None): first key file that opens; C001 errors are skipped,
      any other error aborts the search; no key file matches -> C002 *)
-  Fixpoint find_key (kfs : list (fid * keyfile)) (pass : bytes) : res (key * fid) :=
+  Fixpoint find_key (kfs : list (fid * keyfile)) (pass : password) : res (key * fid) :=
     match kfs with
     | [] => Err ECred
     | (i, kf) :: r =>
@@ -211,7 +212,7 @@ Section Envelope.
   Record kstate := { ks_files : list (fid * keyfile); ks_config : bytes }.
 
   Inductive kop :=
-  | KAdd (i : fid) (pass salt nonce : bytes)       (* add_key: file id = hash of its JSON *)
+  | KAdd (i : fid) (pass : password) (salt nonce : bytes)       (* add_key: file id = hash of its JSON *)
   | KDel (i : fid) (cur : option fid).              (* delete_key on a handle opened via key `cur` *)
 
   Definition kremove (i : fid) (l : list (fid * keyfile)) : list (fid * keyfile) :=
@@ -235,7 +236,7 @@ Section Envelope.
 
   (* Repository::open: Credentials::Password -> find_key, Credentials::Masterkey -> the key itself;
      then the config file is read with that key (get_file::<ConfigFile>) *)
-  Inductive cred := CPassword (p : bytes) | CMaster (k : key).
+  Inductive cred := CPassword (p : password) | CMaster (k : key).
 
   Definition open_repo (st : kstate) (c : cred) : res (key * bytes) :=
     match c with
@@ -248,7 +249,7 @@ Section Envelope.
     end.
 
   (* passwords of the key files a history leaves behind (specification side) *)
-  Definition pstep (st : list (fid * bytes)) (o : kop) : list (fid * bytes) :=
+  Definition pstep (st : list (fid * password)) (o : kop) : list (fid * password) :=
     match o with
     | KAdd i pass _ _ => (i, pass) :: filter (fun '(j, _) => negb (j =? i)) st
     | KDel i cur =>
